@@ -46,7 +46,8 @@ def error_types():
              ensures=[('value', 'r == (Error::UnknownAnchor { location: Location::UNKNOWN })')], vacuity=False),
         # with_location: or-patterns binding `&mut` fields are outside Verus; assumed: the error kind is kept
         dict(src='src/de_error.rs', path='impl Error/fn with_location', trusted=True,
-             ensures=[('keeps_kind', 'error_kind_same(self, r)')]),
+             ensures=[('keeps_kind', 'error_kind_same(self, r)'),
+                      ('sets_the_location_of_a_multiple_documents_error', 'self is MultipleDocuments ==> r->MultipleDocuments_location == set_location')]),
     ]
 
 
